@@ -43,6 +43,10 @@
 //     (`hdr := r.Header`, `ctx := r.Context()`) drops the binding; the call is
 //     still an effect: dropped when listed under "ignore"/"pure", recorded in
 //     the trace when "trace" is set, a translation error otherwise;
+//   - with "trace_nested", scalar-valued calls among the arguments of a traced
+//     call statement (`h.Set(k, in.Get(k))`) are evaluated first, left to
+//     right, with their own trace entries, and their values are the argument
+//     values of the outer entry (otherwise such an argument is shown as "_");
 //   - with "trace", an assignment to a field of an abstract value
 //     (`r.Out.Host = v`) is the trace entry ("Host=", [v]);
 //   - "func": "Outer#name" selects the function literal bound by
@@ -109,6 +113,10 @@ type TrFunc struct {
 	// Pure lists printed callee expressions whose calls are opaque *values*
 	// that are not recorded in the trace (getters such as t.UnixNano).
 	Pure []string `json:"pure,omitempty"`
+	// TraceNested: scalar-valued calls among the arguments of a traced call
+	// statement are evaluated (and traced) first; their values appear in the
+	// outer trace entry instead of "_".
+	TraceNested bool `json:"trace_nested,omitempty"`
 }
 
 type trSpecFile struct {
@@ -1037,6 +1045,35 @@ func (c *fctx) traceArg(a ast.Expr) (code string) {
 	return "(toString " + e.code + ")"
 }
 
+// nestedTrace ("trace_nested") translates a traced call statement whose
+// arguments are themselves calls of scalar type: those are evaluated first,
+// left to right (opaque ones get their own trace entries and parameters), and
+// their values are the argument values of the outer entry.
+func (c *fctx) nestedTrace(call *ast.CallExpr, rest []ast.Stmt) string {
+	var xs []ex
+	at := map[int]int{}
+	for i, a := range call.Args {
+		ac, ok := ast.Unparen(a).(*ast.CallExpr)
+		if lt := c.t.leanType(c.typeOf(a)); ok && (lt == "String" || lt == "Int" || lt == "Bool") {
+			at[i] = len(xs)
+			xs = append(xs, c.expr(ac))
+		}
+	}
+	return c.withExs(xs, func(codes []string) string {
+		var args []string
+		for i, a := range call.Args {
+			if k, ok := at[i]; !ok {
+				args = append(args, c.traceArg(a))
+			} else if c.t.leanType(c.typeOf(a)) == "String" {
+				args = append(args, codes[k])
+			} else {
+				args = append(args, "(toString "+codes[k]+")")
+			}
+		}
+		return fmt.Sprintf("let tr := tr ++ [(%q, [%s])]\n", lastName(c.show(call.Fun)), strings.Join(args, ", ")) + c.stmts(rest)
+	})
+}
+
 func lastName(s string) string {
 	if i := strings.LastIndex(s, "."); i >= 0 {
 		return s[i+1:]
@@ -1395,6 +1432,9 @@ func (c *fctx) stmts(list []ast.Stmt) string {
 		}
 		if !c.trace {
 			fail("call statement %s (not ignored, no trace)", c.show(x))
+		}
+		if c.spec.TraceNested {
+			return c.nestedTrace(call, rest)
 		}
 		return "let tr := tr ++ [" + c.traceEntry(call) + "]\n" + c.stmts(rest)
 	case *ast.DeferStmt:
